@@ -67,7 +67,7 @@ def _java(xmx, extra=()):
     return ["java", "-XX:+UseParallelGC", f"-Xmx{xmx}", "-Xss256m", *extra, "-cp", TLA_CP, "tlc2.TLC"]
 
 
-_tuple_re = re.compile(r'^<<"(REPLAY|BAD|COUNTS|CONSUMED|NOTE|STAT)",\s*(.*)>>\s*$')
+_tuple_re = re.compile(r'^<<"(REPLAY|BAD|COUNTS|CONSUMED|NOTE|STAT|REACHED)",\s*(.*)>>\s*$')
 
 
 def run_tlc(module, cfg, metadir, workers=4, timeout=600, env=None, xmx="6g", extra_args=(), simulate=None):
@@ -522,3 +522,65 @@ def conform(traces, wd, max_rounds=6, module="TraceFlwMC.tla", cfg="TraceFlw.cfg
     with concurrent.futures.ThreadPoolExecutor(max_workers=max(1, min(12, len(traces)))) as ex:
         rs = list(ex.map(one, enumerate(traces)))
     return {"scenarios": sum(r[0] for r in rs), "events": sum(r[1] for r in rs), "drifts": [d for r in rs for d in r[2]]}
+
+
+# --------------------------------------------------------------------------- conform mode for free-running threads
+def conform_conc(traces, wd, max_rounds=4):
+    """TraceFlwConc.tla over the recorded event lists of the traced stress runs of `flv conc`: every execution must be a
+    behaviour of FlwConc.tla (one TLC run per shard and write-mode class, because the mode is a constant of FlwConc).
+    Returns dict(scenarios, events, sends, drifts=[(sc, n, ev)])."""
+    import concurrent.futures
+    cfgp = os.path.join(SPEC, "TraceFlwConc.cfg")
+    klass = {"direct": "direct", "buf": "buf", "bufflush": "buf", "async": "async"}
+    jobs = []
+    for ix, tf in enumerate(traces):
+        per = {}
+        cur = None
+        for line in open(tf):
+            if '"ev":"Begin"' in line:
+                e = json.loads(line)
+                cur = klass.get(e.get("cfg", {}).get("mode", "direct")) if e.get("conf") and e.get("nev", 0) > 0 else None
+            if cur:
+                per.setdefault(cur, []).append(line)
+        for k, lines in per.items():
+            jobs.append((ix, k, lines))
+
+    def one(job):
+        ix, k, lines = job
+        nsc = sum(1 for x in lines if '"ev":"Begin"' in x)
+        nev = len(lines) - nsc
+        drifts = []
+        states = 0
+        for rnd in range(max_rounds):
+            cur = os.path.join(wd, f"cconf-{ix}-{k}-{rnd}.ndjson")
+            open(cur, "w").writelines(lines)
+            res = run_tlc("TraceFlwConc.tla", cfgp, os.path.join(wd, f"cconf-meta-{ix}-{k}-{rnd}"), workers=1,
+                          timeout=1200, env={"TRACE": cur, "MODE": k}, xmx="3g")
+            states = max(states, res["states"])
+            consumed = reached = 0
+            for tag, rest in res["printed"]:
+                if tag == "CONSUMED":
+                    consumed = int(re.findall(r"\d+", rest)[0])
+                if tag == "REACHED":
+                    reached = int(re.findall(r"\d+", rest)[0])
+            if consumed == len(lines):
+                break
+            bad = reached + 1           # the first line that no step of the specification explains
+            if bad < 1 or bad > len(lines):
+                raise ToolError(f"conform mode (threads): cannot locate the unexplained event ({cur}, reached {reached})")
+            e = json.loads(lines[bad - 1])
+            drifts.append((e.get("sc"), e.get("n"), e.get("ev")))
+            # take that scenario out and go on with the others
+            b0 = max(j for j in range(bad) if '"ev":"Begin"' in lines[j])
+            b1 = next((j for j in range(bad, len(lines)) if '"ev":"Begin"' in lines[j]), len(lines))
+            lines = lines[:b0] + lines[b1:]
+            if not lines:
+                break
+        return nsc, nev, drifts, max(0, states - 1 - (len(lines) if not drifts else 0))
+
+    if not jobs:
+        return {"scenarios": 0, "events": 0, "sends": 0, "drifts": []}
+    with concurrent.futures.ThreadPoolExecutor(max_workers=max(1, min(12, len(jobs)))) as ex:
+        rs = list(ex.map(one, jobs))
+    return {"scenarios": sum(r[0] for r in rs), "events": sum(r[1] for r in rs), "sends": sum(r[3] for r in rs),
+            "drifts": [d for r in rs for d in r[2]]}
